@@ -106,6 +106,55 @@ def _same02(x):
     return x
 
 
+def selection_bounds_family(ld, r, count):
+    """a selection by positions (list, tuple, numpy arrays of every integer dtype) with an entry outside [-len, len) is refused with an
+    IndexError when it is made - it does not become a dataset whose len() disagrees with its iteration, nor is the entry wrapped around;
+    entries inside the range, negative ones included, select what list indexing selects"""
+    import numpy as np
+    fails = []
+    with warnings.catch_warnings():
+        warnings.simplefilter('ignore')
+        for _ in range(count):
+            n = r.randint(1, 6)
+            keyed = r.random() < 0.4
+            base = ld.new({f'key{i}': 10 + i for i in range(n)} if keyed else [10 + i for i in range(n)])
+            stack = r.choice(['plain', 'map', 'batch', 'slice'])
+            d = base if stack == 'plain' else base.map(_same02) if stack == 'map' else base.batch(1) if stack == 'batch' else base[::-1]
+            ref = list(d)
+            m = len(ref)
+            idx = [r.randint(-m, m - 1) for _i in range(r.randint(1, 4))]
+            out_of_range = r.random() < 0.6
+            if out_of_range:
+                idx[r.randrange(len(idx))] = r.choice([m, m + 2, -m - 1, -2 * m, 2 * m + 1])
+            form = r.choice(['list', 'tuple', 'int64', 'int32', 'int16', 'int8', 'intp'])
+            sel = idx if form == 'list' else tuple(idx) if form == 'tuple' else np.array(idx, dtype=form)
+            what = f'{stack} over {n} examples ({"dict" if keyed else "list"} source) selected by the {form} positions {idx}'
+            try:
+                sub = d[sel]
+            except IndexError:
+                if not out_of_range:
+                    fails.append(dict(kind='history', summary=f'{what}: refused with IndexError although every position is inside [-{m}, {m})', config=dict(kind='selbounds', idx=idx, form=form)))
+                continue
+            except Exception as e:
+                fails.append(dict(kind='history', summary=f'{what}: raised {type(e).__name__}: {e}'[:300], config=dict(kind='selbounds', idx=idx, form=form)))
+                continue
+            if out_of_range:
+                try:
+                    shown = (len(sub), [repr(x) for x in sub])
+                except Exception as e:
+                    shown = f'a dataset whose iteration raises {type(e).__name__}'
+                fails.append(dict(kind='history', summary=f'{what}: a position outside [-{m}, {m}) was accepted; the result is {shown}'[:500], config=dict(kind='selbounds', idx=idx, form=form)))
+                continue
+            want = [ref[i] for i in idx]
+            try:
+                got = (len(sub), list(sub), [sub[j] for j in range(len(idx))])
+            except Exception as e:
+                got = f'raised {type(e).__name__}: {e}'
+            if got != (len(want), want, want):
+                fails.append(dict(kind='history', summary=f'{what}: len / iteration / position access = {got}; list indexing gives {want}'[:500], config=dict(kind='selbounds', idx=idx, form=form)))
+    return fails
+
+
 def falsy_examples_family(ld, r, count):
     """examples that are None / 0 / '' / False / () / [] pass through every stage class (and through the profiling wrapper around
     it): what is iterated is what the source holds, len() - where defined - is the number of iterated examples, ds[i] is the i-th one"""
@@ -199,6 +248,8 @@ def run(tier):
     nf = 400 if tier == 'quick' else 6000
     res['failures'] += falsy_examples_family(ld, common.rng_for('C02-falsy'), nf)
     res['coverage']['falsy_example_pipelines'] = nf
+    res['failures'] += selection_bounds_family(ld, common.rng_for('C02-selb'), nf)
+    res['coverage']['selection_bounds_cases'] = nf
     return res
 
 
@@ -206,7 +257,7 @@ def replay(payload):
     if 'program' not in payload:
         from .. import common
         ld = common.import_impl()
-        ff = falsy_examples_family(ld, common.rng_for('C02-falsy'), 400) + source_history(ld, common.rng_for('C02-src'), 200)
+        ff = falsy_examples_family(ld, common.rng_for('C02-falsy'), 400) + source_history(ld, common.rng_for('C02-src'), 200) + selection_bounds_family(ld, common.rng_for('C02-selb'), 400)
         for f in ff[:3]:
             print('  ', f['summary'][:300])
         return bool(ff)
